@@ -169,7 +169,10 @@ example : getters (build .node []) = ⟨1, 0, 0, "continue"⟩ ∧ getters (buil
 
 /-- **Defaults (behaviour).** A node on which no scalar parameter was set makes exactly ONE attempt
     of a failing exec function; a batch node runs its items one at a time (sequential), makes one
-    attempt on the failing item and CONTINUES with the remaining items. -/
+    attempt on the failing item and CONTINUES with the remaining items. (Statement unchanged by the
+    "odd tags fail" convention for fallback functions: whether the fallback of a plain node succeeds
+    or fails, the exec function has been attempted once; a batch in the default "continue" mode goes
+    on to items 1 and 2 whether or not item 0's fallback fails.) -/
 theorem default_behaviour (k : Kind) (steps : List Step) (hdom : ∀ s, s ∈ steps → inDomain k s = true)
     (hnone : ∀ s, s ∈ steps → s.setting.isNodeOption = false) :
     (modelObs k steps).runB.calls = (match k with | .node => [1] | .batch => [1, 1, 1])
@@ -189,7 +192,7 @@ theorem default_behaviour (k : Kind) (steps : List Step) (hdom : ∀ s, s ∈ st
   | node =>
     refine ⟨?_, rfl⟩
     simp only [modelObs, observe, withProbes, nodeBuilderCall, runNode, e1]
-    cases (build .node steps).execFallbackFunc <;> simp [probeExec]
+    cases (build .node steps).execFallbackFunc <;> simp [probeExec] <;> split <;> rfl
   | batch =>
     refine ⟨?_, ?_⟩
     · simp only [modelObs, observe, withProbes, batchBuilderCall, runBatch, e1, e3, getBatchErrorHandling] at e4 ⊢
@@ -203,6 +206,188 @@ example : (modelObs .batch [⟨.postFn false, .bld, 0⟩]).runB
 /-- contrast: with "stop" the later items are skipped, with 3 retries item 0 is attempted 3 times -/
 example : (modelObs .batch [⟨.batchErrorHandling false, .opt, 0⟩, ⟨.maxRetries 3, .bld, 1⟩]).runB.calls = [3, 0, 0] := by
   decide
+
+/-! ### the fallback function: the LAST setting decides — also when it fails
+
+Harness convention (`fbFails`): the fallback function installed by a step with an odd tag returns an
+error. A fallback that always succeeds cannot tell "the new function REPLACED the old one" from "the
+new function was CHAINED in front of the old one (the old one runs only if the new one fails)"; with
+a failing last fallback the two differ in everything the probe run shows after the exec attempts. -/
+
+/-- the probe run of a plain node: the node as built, with the harness's always-failing exec function -/
+theorem runB_node (steps : List Step) :
+    (modelObs .node steps).runB = runNode { build .node steps with execFunc := some ⟨probeExec, false⟩ } := rfl
+
+/-- **The fallback field holds the last fallback setting and nothing else.** If, in execution order,
+    `s` is a fallback setting (in either form) and no fallback setting follows it, then the node's
+    `execFallbackFunc` is exactly the function `s` installed: no trace of the fallback settings in
+    `pre` (however many, in whatever form) is left in the node. -/
+theorem fbFunc_of_last (steps pre post : List Step) (s : Step)
+    (hsplit : effective steps = pre ++ s :: post) (hs : s.setting = .fbFn)
+    (hpost : ∀ x, x ∈ post → x.setting ≠ .fbFn) :
+    (build .node steps).execFallbackFunc = some ⟨s.tag, false⟩ := by
+  have hp : lastSome (setsFbFunc .node) post = none :=
+    lastSome_none _ _ (fun x hx => by
+      have := hpost x hx
+      cases x with
+      | mk st f t => cases st <;> simp_all [setsFbFunc])
+  rw [node_fbFunc, hsplit, lastSome_append]
+  simp [lastSome, hp, setsFbFunc, hs]
+
+/-- **The last fallback setting decides the probe run.** For ANY word of steps on a plain node with a
+    positive retry budget: if `s` is the last fallback setting in execution order (`pre` and the
+    forms of all steps are arbitrary; `pre` may contain any number of other fallback settings, failing
+    or not), then the probe run — exec function failing on every attempt —
+    * calls the exec function `maxRetries` times and then the fallback of `s`, and reports THAT tag;
+    * fails, without calling post, iff the fallback of `s` fails (odd tag);
+    * otherwise calls post and ends like a successful run.
+    Nothing in the conclusion mentions `pre`: an earlier fallback never runs and never rescues. -/
+theorem last_fallback_decides (steps pre post : List Step) (s : Step)
+    (hsplit : effective steps = pre ++ s :: post) (hs : s.setting = .fbFn)
+    (hpost : ∀ x, x ∈ post → x.setting ≠ .fbFn)
+    (hbudget : 0 < getMaxRetries (build .node steps)) :
+    (modelObs .node steps).runB.exec = some probeExec
+    ∧ (modelObs .node steps).runB.calls = [(getMaxRetries (build .node steps)).toNat]
+    ∧ (modelObs .node steps).runB.fb = some s.tag
+    ∧ (s.tag % 2 = 1 →
+        (modelObs .node steps).runB.out = "err" ∧ (modelObs .node steps).runB.post = none)
+    ∧ (s.tag % 2 = 0 →
+        (modelObs .node steps).runB.out = (if (build .node steps).postFunc.isSome then "done" else "default")
+        ∧ (modelObs .node steps).runB.post = tagOf (build .node steps).postFunc) := by
+  have hfb := fbFunc_of_last steps pre post s hsplit hs hpost
+  have hb : ¬ (build .node steps).base.maxRetries.toNat = 0 := by
+    simp only [getMaxRetries] at hbudget; omega
+  rw [runB_node]
+  simp only [runNode, hfb, hb, if_false, if_true, getMaxRetries, fbFails]
+  by_cases hodd : s.tag % 2 = 1
+  · have h0 : ¬ s.tag % 2 = 0 := by omega
+    simp [hodd]
+  · have h0 : s.tag % 2 = 0 := by omega
+    simp [h0]
+
+/-- the same for a word written in execution order (options before builder calls): the last fallback
+    setting of the word AS WRITTEN decides -/
+theorem last_fallback_decides_written (pre post : List Step) (s : Step)
+    (hord : optsFirst (pre ++ s :: post) = true) (hs : s.setting = .fbFn)
+    (hpost : ∀ x, x ∈ post → x.setting ≠ .fbFn)
+    (hbudget : 0 < getMaxRetries (build .node (pre ++ s :: post))) :
+    (modelObs .node (pre ++ s :: post)).runB.fb = some s.tag
+    ∧ ((modelObs .node (pre ++ s :: post)).runB.out = "err" ↔ s.tag % 2 = 1) := by
+  obtain ⟨_, _, h3, h4, h5⟩ :=
+    last_fallback_decides (pre ++ s :: post) pre post s (effective_of_optsFirst _ hord) hs hpost hbudget
+  refine ⟨h3, ?_, fun h => (h4 h).1⟩
+  intro herr
+  by_cases hodd : s.tag % 2 = 1
+  · exact hodd
+  · have h0 : s.tag % 2 = 0 := by omega
+    rw [(h5 h0).1] at herr
+    split at herr <;> simp at herr
+
+/-- **A builder-form fallback setting replaces every fallback installed before it** — whether by a
+    constructor option (wherever that option is written: the constructor runs first) or by an earlier
+    builder call. `s` is the last BUILDER-form fallback setting of the word as written; the word is
+    otherwise arbitrary. This is the statement a `WithExecFallbackFunc` method that chains the new
+    function in front of the old one violates. -/
+theorem bld_fallback_replaces (pre post : List Step) (s : Step)
+    (hs : s.setting = .fbFn) (hf : s.form = .bld)
+    (hpost : ∀ x, x ∈ post → x.form = .bld → x.setting ≠ .fbFn)
+    (hbudget : 0 < getMaxRetries (build .node (pre ++ s :: post))) :
+    (build .node (pre ++ s :: post)).execFallbackFunc = some ⟨s.tag, false⟩
+    ∧ (modelObs .node (pre ++ s :: post)).runB.fb = some s.tag
+    ∧ (s.tag % 2 = 1 → (modelObs .node (pre ++ s :: post)).runB.out = "err"
+        ∧ (modelObs .node (pre ++ s :: post)).runB.post = none) := by
+  have hb : isBld s = true := by simp [isBld, hf]
+  have hsplit : effective (pre ++ s :: post)
+      = ((pre ++ s :: post).filter isOpt ++ pre.filter isBld) ++ s :: post.filter isBld := by
+    unfold effective
+    rw [List.filter_append (p := isBld), List.filter_cons_of_pos hb, List.append_assoc]
+  have hpost' : ∀ x, x ∈ post.filter isBld → x.setting ≠ .fbFn := by
+    intro x hx
+    obtain ⟨hm, hxb⟩ := List.mem_filter.mp hx
+    exact hpost x hm (by simpa [isBld] using hxb)
+  obtain ⟨_, _, h3, h4, _⟩ := last_fallback_decides _ _ _ s hsplit hs hpost' hbudget
+  exact ⟨fbFunc_of_last _ _ _ s hsplit hs hpost', h3, h4⟩
+
+/-- a node with no fallback setting at all: the probe run fails after the exec attempts, no fallback
+    and no post function runs -/
+theorem no_fallback_fails (steps : List Step) (hnone : ∀ x, x ∈ steps → x.setting ≠ .fbFn)
+    (hbudget : 0 < getMaxRetries (build .node steps)) :
+    (modelObs .node steps).runB.fb = none ∧ (modelObs .node steps).runB.out = "err"
+    ∧ (modelObs .node steps).runB.post = none := by
+  have hfb : (build .node steps).execFallbackFunc = none := by
+    rw [node_fbFunc]
+    have : lastSome (setsFbFunc .node) (effective steps) = none :=
+      lastSome_none _ _ (fun x hx => by
+        have hm : x ∈ steps := by
+          unfold effective at hx
+          rcases List.mem_append.mp hx with h | h <;> exact (List.mem_filter.mp h).1
+        have := hnone x hm
+        cases x with
+        | mk st f t => cases st <;> simp_all [setsFbFunc])
+    rw [this]; rfl
+  have hb : ¬ (build .node steps).base.maxRetries.toNat = 0 := by
+    simp only [getMaxRetries] at hbudget; omega
+  rw [runB_node]
+  simp [runNode, hfb, hb]
+
+/-- a failing fallback (odd tag) is visible: the run fails after the fallback ran, post does not run -/
+example : (modelObs .node [⟨.fbFn, .bld, 1⟩]).runB
+    = { prep := none, exec := some 900, fb := some 1, post := none, calls := [1], out := "err" } := by decide
+
+/-- … a succeeding one (even tag) rescues the run -/
+example : (modelObs .node [⟨.fbFn, .opt, 2⟩, ⟨.postFn false, .bld, 4⟩, ⟨.maxRetries 3, .opt, 6⟩]).runB
+    = { prep := none, exec := some 900, fb := some 2, post := some 4, calls := [3], out := "done" } := by decide
+
+/-- last wins, observably: the same two fallback settings in the two orders give different probe
+    runs (under the old "every fallback succeeds" probe they differed in the `fb` tag only; a chained
+    implementation that records the last fallback that RAN shows `fb = 2`, `out = "default"` for both) -/
+example :
+    (modelObs .node [⟨.fbFn, .bld, 2⟩, ⟨.fbFn, .bld, 1⟩]).runB
+      = { prep := none, exec := some 900, fb := some 1, post := none, calls := [1], out := "err" }
+    ∧ (modelObs .node [⟨.fbFn, .bld, 1⟩, ⟨.fbFn, .bld, 2⟩]).runB
+      = { prep := none, exec := some 900, fb := some 2, post := none, calls := [1], out := "default" }
+    ∧ (modelObs .node [⟨.fbFn, .bld, 2⟩, ⟨.fbFn, .bld, 1⟩]).runB
+      ≠ (modelObs .node [⟨.fbFn, .bld, 1⟩, ⟨.fbFn, .bld, 2⟩]).runB := by decide
+
+/-- a builder-form fallback written BEFORE an option-form one still executes later, hence wins -/
+example : (modelObs .node [⟨.fbFn, .bld, 3⟩, ⟨.fbFn, .opt, 4⟩]).runB.fb = some 3
+    ∧ (modelObs .node [⟨.fbFn, .bld, 3⟩, ⟨.fbFn, .opt, 4⟩]).runB.out = "err" := by decide
+
+/-- the hypotheses of `last_fallback_decides` / `bld_fallback_replaces` are satisfiable by a mixed word
+    with three fallback settings -/
+example :
+    let w : List Step := [⟨.fbFn, .bld, 2⟩, ⟨.fbFn, .opt, 4⟩, ⟨.fbFn, .bld, 5⟩, ⟨.wait 1, .opt, 6⟩]
+    effective w = [⟨.fbFn, .opt, 4⟩, ⟨.wait 1, .opt, 6⟩, ⟨.fbFn, .bld, 2⟩] ++ ⟨.fbFn, .bld, 5⟩ :: []
+    ∧ 0 < getMaxRetries (build .node w) ∧ (modelObs .node w).runB.fb = some 5
+    ∧ (modelObs .node w).runB.out = "err" := by decide
+
+/-- the predicate `c19` rejects what a CHAINING builder method shows for "fallback 2, then fallback 1":
+    the new function (1) fails, the old one (2) runs and rescues the run — whether the harness reports
+    the last fallback that ran (`fb = 2`, which is the observation of the word `[fallback 2]`) or the
+    first (`fb = 1`) -/
+example :
+    let w : List Step := [⟨.fbFn, .bld, 2⟩, ⟨.fbFn, .bld, 1⟩]
+    c19 .node w (modelObs .node w) = true
+    ∧ c19 .node w (modelObs .node [⟨.fbFn, .bld, 2⟩]) = false
+    ∧ c19 .node w { modelObs .node w with
+        runB := { prep := none, exec := some 900, fb := some 1, post := none, calls := [1], out := "default" } } = false := by
+  decide
+
+/-- batch: the fallback field cannot be set through a batch builder, but `runBatch` honours it. A
+    failing fallback leaves an error in item 0's slot, so "stop" skips the later items exactly as
+    without a fallback; a succeeding one lets the batch go on. Post runs in every case. -/
+example :
+    let n (fb : Option Fn) : Node :=
+      { emptyNode with base := ⟨2, 0, 0, .stop⟩, batchPrepFunc := some ⟨901, false⟩,
+                       execFunc := some ⟨900, false⟩, execFallbackFunc := fb, batchPostFunc := some ⟨8, false⟩ }
+    runBatch (n (some ⟨1, false⟩))
+      = { prep := some 901, exec := some 900, fb := some 1, post := some 8, calls := [2, 0, 0], out := "done" }
+    ∧ runBatch (n (some ⟨2, false⟩))
+      = { prep := some 901, exec := some 900, fb := some 2, post := some 8, calls := [2, 1, 1], out := "done" }
+    ∧ runBatch (n none)
+      = { prep := some 901, exec := some 900, fb := none, post := some 8, calls := [2, 0, 0], out := "done" }
+    ∧ (runBatch { n (some ⟨1, false⟩) with base := ⟨2, 0, 2, .stop⟩ }).calls = [2, 1, 1]
+    ∧ (runBatch { n (some ⟨1, false⟩) with base := ⟨2, 0, 0, .cont⟩ }).calls = [2, 1, 1] := by decide
 
 /-- **Pool size.** A worker pool created with a size ≤ 0 has exactly one worker, a positive size is
     taken as is; a batch works on one item at a time unless its concurrency is positive. -/
